@@ -180,8 +180,11 @@ def gen_ops(rng):
     if rng.random() < 0.12:
         # a large predicate: size-dependent code paths in the store (thresholds such as 16/32/64/128 facts)
         big = rng.choice([k for k in KEYS if k[1] > 0])
-        for j in range(rng.choice([17, 33, 40, 65, 130])):
-            ops.append(('assert', rng.choice('zzza'), 'assert_fact', C(big[0], *([I(j)] + [rng.choice(CONST) for _ in range(big[1] - 1)]))))
+        atom_keys = rng.random() < 0.5
+        for j in range(rng.choice([9, 17, 33, 40, 65, 130])):
+            # (first argument: a running number, or one of three atoms - a table looked up by an atom key)
+            first = rng.choice(CONST[:3]) if atom_keys else I(j)
+            ops.append(('assert', rng.choice('zzza'), 'assert_fact', C(big[0], *([first] + [rng.choice(CONST) for _ in range(big[1] - 1)]))))
         keys = [big] + keys
     for i in range(n):
         key = rng.choice(keys)
@@ -298,6 +301,6 @@ def _atom_mode(hist, c):
     and held (also across clear()), or made by another engine"""
     import hashlib
     k = int(hashlib.md5(repr(hist).encode('utf8', 'backslashreplace')).hexdigest(), 16) % 10
-    mode = 'fresh' if k < 5 else ('held' if k < 8 else 'other')
+    mode = 'fresh' if k < 4 else ('held' if k < 6 else ('other' if k < 8 else 'mixed'))
     c['atoms_' + mode] = 1
     return mode
